@@ -96,6 +96,25 @@ CLAIMED = {
    note=TRUST + "ClassNs.v models dict/class-namespace ordering; the class object is created before its body runs (visible only to class-creation hooks).",
    technique="Coq proof (ordered-map replay by induction with NoDup invariant; header shape theorem) + AST correspondence + differential execution of the skeleton product",
    ref="5/C12"),
+ "C14": dict(
+   text="Theorems over an abstract import system (any finder, any module attributes, any state): C14_import_equiv - for `import a.b.c "
+        "[as x]` the emitted operation (importlib.import_module, or __import__ for an un-aliased dotted name) loads the same modules in "
+        "the same order and binds the same object to the same name; C14_from_equiv - for `from m import n1 as x1, n2, ...` (any number "
+        "of clauses mixing attributes and not-yet-imported submodules) `tmp := __import__(m, g, l, [n1, ...], level)` plus attribute reads "
+        "leaves the same loaded set, execution order and ordered bindings; C14_lower_* tie those operations to what the converter model "
+        "emits. Relative-name resolution is performed by __import__ at run time and is observed on a vendored package tree.",
+   note=TRUST + "Imports.v's statement and importlib semantics are models written from the language reference / importlib documentation, validated on corpus/pkgroot (modules log their own execution).",
+   technique="Coq proof over an import-system state machine (statement semantics vs emitted operations) + shape lemmas on the converter model + differential execution on a logging package tree",
+   ref="5/C14"),
+ "C17": dict(
+   text="Theorems C17_wrap_list_depth and C17_statements_depth_list (for EVERY n, a module of n consecutive simple statements lowers, with "
+        "expr_wrapper=list, to an expression of nesting depth <= 3) and C17_statements_depth_chain_refuted (with the default chain_call the "
+        "depth is >= n). Partial: whether CPython accepts an expression of a given depth (C stack, parser limits, the recursion limit hit "
+        "by CPython's own ast.unparse) is interpreter behaviour; it is measured on a geometric schedule over 10 program families with the "
+        "default recursion limit. Two known findings (ast.unparse recursion; chain_call depth).",
+   note=TRUST + "Acceptance limits of CPython are measured, not proved.",
+   technique="Coq depth bound (induction) over the converter model + measured size schedule per family/config",
+   ref="5/C17"),
 }
 PENDING_REASON = "not yet built in this round: model/theorem under construction (see DESIGN.md section 8 build order); not claimed until its minimum is proved and tied"
 ALL = [f"C{i:02d}" for i in range(1, 18)]
